@@ -842,8 +842,9 @@ def _helpers(chk, ctx) -> None:
     guard = T.spec('not 0 <= percentage <= 1', boolean=True)
     ok = any(p.raised and guard in p.conds() for p in ctx.paths(rk))
     chk.ob('C01.helpers', 'utilities.rake:percentage', ok, rk.loc, 'a rake percentage outside [0, 1] is rejected')
-    from .helpers import chip_literals
+    from .helpers import chip_literals, resolved_types
     chip_literals(chk, ctx, 'C01.helpers')
+    resolved_types(chk, ctx, 'C01.helpers', 'utilities', {'Integral': 'numbers.Integral'})
     chk.floor('C01.helpers', 3)
 
 
